@@ -77,23 +77,23 @@ Section Msgpack.
   Import Wire.Msgpack Wire.MsgpackProofs Wire.MsgpackRT.
 
   Lemma msgpack_skip_lemma : forall (O : eopts) (D : dopts) (i : item) (d0 : Z) (rest : list N),
-    supported i -> (Z.of_nat (depth i) < maxdepth D)%Z -> (d0 + Z.of_nat (depth i) < maxdepth D)%Z ->
+    supported i -> sint_ok D i -> (Z.of_nat (depth i) < maxdepth D)%Z -> (d0 + Z.of_nat (depth i) < maxdepth D)%Z ->
     goslice (len (enc O i ++ rest)) ->
     dec_naked D (dec_fuel (enc O i ++ rest)) (enc O i ++ rest) = Ok (norm O D i, rest)
     /\ skip_at D d0 (dec_fuel (enc O i ++ rest)) (enc O i ++ rest) = Ok rest.
   Proof.
-    intros O D i d0 rest Hs Hd Hd0 Hg. split.
+    intros O D i d0 rest Hs Hi Hd Hd0 Hg. split.
     - apply dec_enc; assumption.
     - apply skip_enc; assumption.
   Qed.
 
   Lemma msgpack_raw_lemma : forall (O : eopts) (D : dopts) (i : item) (d0 : Z) (rest rest' : list N),
-    supported i -> (Z.of_nat (depth i) < maxdepth D)%Z -> (d0 + Z.of_nat (depth i) < maxdepth D)%Z ->
+    supported i -> sint_ok D i -> (Z.of_nat (depth i) < maxdepth D)%Z -> (d0 + Z.of_nat (depth i) < maxdepth D)%Z ->
     goslice (len (enc O i ++ rest')) ->
     capture (enc O i ++ rest) (skip_at D d0 (dec_fuel (enc O i ++ rest)) (enc O i ++ rest)) = Ok (enc O i, rest)
     /\ dec_naked D (dec_fuel (enc O i ++ rest')) (enc O i ++ rest') = Ok (norm O D i, rest').
   Proof.
-    intros O D i d0 rest rest' Hs Hd Hd0 Hg. split.
+    intros O D i d0 rest rest' Hs Hi Hd Hd0 Hg. split.
     - rewrite (skip_enc O D i rest d0 Hs Hd0). apply capture_app.
     - apply dec_enc; assumption.
   Qed.
